@@ -26,6 +26,14 @@
 (*  ValidEmitted (ConservativeEmitsOriginalForValid) the original lines of  *)
 (*               the outermost VALID nodes occur in the output as disjoint  *)
 (*               blocks in tree order.                                      *)
+(*  ChildrenOnly  a node marked INVALID_CHILDREN ("interior node properties  *)
+(*               have not changed, but child nodes have been altered") is   *)
+(*               not one whose own expressions were changed by the history  *)
+(*               (a later edit must be able to upgrade INVALID_CHILDREN to  *)
+(*               INVALID_NODE).                                             *)
+(*  StaleHeader  the first original line of a node whose own expressions    *)
+(*               were changed is not printed again (it occurs in the output *)
+(*               at most as often as other nodes of the original carry it). *)
 (* The behaviour of the result (it must behave as the edited program) is    *)
 (* decided by the reference machine (Trace_FMachine).                       *)
 (***************************************************************************)
@@ -69,19 +77,36 @@ Match(orig, nodes, out, idx, k, p, miss) ==
                      q \in {Find(out, SubSeq(orig, n.l0, n.l1), p)}})
 NotEmitted(orig, nodes, out) == Match(orig, nodes, out, Outer(nodes, 1, <<>>), 1, 1, <<>>)
 
+\* ---- ChildrenOnly: new-tree nodes marked INVALID_CHILDREN whose own expressions were changed
+ChildrenOnlyBad(nodes, own) == {i \in DOMAIN nodes : nodes[i].st = "INVALID_CHILDREN" /\ nodes[i].oid # 0 /\ nodes[i].oid \in own}
+
+\* ---- StaleHeader
+RECURSIVE Occ(_, _, _, _)
+Occ(s, x, i, acc) == IF i > Len(s) THEN acc ELSE Occ(s, x, i + 1, IF s[i] = x THEN acc + 1 ELSE acc)
+HeaderOf(orig, n) == orig[n.l0]
+Heads(orig, onodes, own) == {t \in own : onodes[t].whole /\ onodes[t].l0 > 0 /\ onodes[t].l0 <= Len(orig)}
+Stale(orig, onodes, own, out) ==
+  {t \in Heads(orig, onodes, own) :
+      LET h == HeaderOf(orig, onodes[t]) IN
+      Occ(out, h, 1, 0) + Cardinality({u \in Heads(orig, onodes, own) : HeaderOf(orig, onodes[u]) = h}) > Occ(orig, h, 1, 0)}
+
 \* ---- Unmodified: first line at which the output of a unit differs from its original lines (0: equal)
 RECURSIVE DiffFrom(_, _, _, _)
 DiffFrom(a, b, k, n) == IF k > n THEN n + 1 ELSE IF a[k] # b[k] THEN k ELSE DiffFrom(a, b, k + 1, n)
 FirstDiff(a, b) == IF a = b THEN 0 ELSE DiffFrom(a, b, 1, IF Len(a) < Len(b) THEN Len(a) ELSE Len(b))
 
-\* c = [orig (lines of the file), onodes, nodes, touched (sequence of original node indices), out (lines), l0, l1 (the
-\*      lines of the emitted unit in the file)].  Findings: <<clause, position>>.
+\* c = [orig (lines of the file), onodes, nodes, touched (sequence of original node indices), own (those of them whose own
+\*      expressions were changed), out (lines), l0, l1 (the lines of the emitted unit in the file)].
+\* Findings: <<clause, position>> (position: index in `nodes`; for stale-header the index in `onodes`).
 Findings(c) ==
-  LET tset == {c.touched[k] : k \in DOMAIN c.touched} IN
+  LET tset == {c.touched[k] : k \in DOMAIN c.touched}
+      oset == {c.own[k] : k \in DOMAIN c.own} IN
   (IF tset = {} /\ c.l0 > 0
    THEN (IF c.l1 > Len(c.orig) \/ c.l1 < c.l0 THEN <<<<"unmodified", 0>>>>       \* the recorded span is not inside the file
          ELSE Pick({IF d = 0 THEN <<>> ELSE <<<<"unmodified", d>>>> : d \in {FirstDiff(SubSeq(c.orig, c.l0, c.l1), c.out)}}))
    ELSE <<>>)
   \o Pick({[k \in DOMAIN us |-> <<"valid-sound", us[k]>>] : us \in {Sorted(Unsound(c.onodes, c.nodes, tset))}})
   \o Pick({[k \in DOMAIN m |-> <<"valid-emitted", m[k]>>] : m \in {NotEmitted(c.orig, c.nodes, c.out)}})
+  \o Pick({[k \in DOMAIN b |-> <<"children-only", b[k]>>] : b \in {Sorted(ChildrenOnlyBad(c.nodes, oset))}})
+  \o Pick({[k \in DOMAIN h |-> <<"stale-header", h[k]>>] : h \in {Sorted(Stale(c.orig, c.onodes, oset, c.out))}})
 =============================================================================
